@@ -11,6 +11,7 @@ import (
 	"os/exec"
 	"path/filepath"
 	"runtime"
+	"runtime/pprof"
 	"sort"
 	"strings"
 	"time"
@@ -268,6 +269,12 @@ func tapeHash(t *engine.Tape) string {
 }
 
 func main() {
+	if pf := os.Getenv("GOSYM_PPROF"); pf != "" {
+		f, _ := os.Create(pf)
+		pprof.StartCPUProfile(f)
+		defer pprof.StopCPUProfile()
+		go func() { time.Sleep(25 * time.Second); pprof.StopCPUProfile(); f.Close(); os.Exit(3) }()
+	}
 	if len(os.Args) < 2 {
 		fatalf("usage: gosym check|selftest ...")
 	}
@@ -288,7 +295,7 @@ func cmdCheck(args []string) int {
 	only := fs.String("harness", "", "run only this harness")
 	trace := fs.Bool("trace", false, "trace instructions")
 	workers := fs.Int("workers", runtime.NumCPU(), "workers")
-	solver := fs.String("solver", "z3", "solver binary")
+	solver := fs.String("solver", "z3-new", "solver binary")
 	noReplay := fs.Bool("no-replay", false, "skip native replay (debug)")
 	noEvidence := fs.Bool("no-evidence", false, "do not write evidence (debug)")
 	cross := fs.Int("cross", -1, "number of path transcripts to cross-check with other solvers (-1: tier default)")
